@@ -61,6 +61,32 @@ def gen_cases(tier, seed, ctx):
         cfg = dict(c); cfg['fd0'] = 1
         add(cfg, 'w' + C['small'].hex(), kind='fd0-free', size=len(C['small']))
         add(dict(c), 'w|w' + C['small'].hex() + '|w|e|e|w' + C['one'].hex(), kind='empty-writes', size=len(C['small']) + 1)
+    # the zck tool's split scanner: chunk structure of the real tool's output against the Lean model of the scanner + chunker
+    import zcklib as Z
+    tdir = B.build_tools(variant='plain')
+    blk = 32768
+    sc = []
+    for o in [0, 1, 5, 6, 7, blk - 7, blk - 6, blk - 5, blk - 3, blk - 1, blk, blk + 1, 2 * blk - 2]:
+        filler = bytes(rnd.choice(b'abcdefghij \n') for _ in range(2 * blk + 777))
+        sc.append(filler[:o] + SPLIT + filler[o:o + 900] + SPLIT[:4] + b'y' + SPLIT + filler[:50] + SPLIT[:rnd.randrange(0, 6)])
+    sc.append(b'<<text:<te<text:' * 2500)
+    sc.append(SPLIT); sc.append(SPLIT[:3]); sc.append(b'')
+    for i, data in enumerate(sc):
+        for manual in (1, 0):
+            src = os.path.join(ctx['work'], 'scan%d_%d.in' % (i, manual)); z = src + '.zck'
+            open(src, 'wb').write(data)
+            r1 = subprocess.run([os.path.join(tdir, 'zck'), '-o', z, '-s', SPLIT.decode()] + (['-m'] if manual else []) + [src],
+                                capture_output=True, timeout=120)
+            if r1.returncode == 0:
+                try:
+                    pr = Z.parse(open(z, 'rb').read())
+                    impl = 'OK lens=' + ','.join(str(c['len']) for c in pr['chunks'])
+                except Exception as e:
+                    impl = 'BADFILE %s' % e
+            else:
+                impl = 'ERR exit%d' % r1.returncode
+            cases.append(E.Case('z%d' % len(cases), 'ZCKOPS %s %s %d' % (src, SPLIT.hex(), manual),
+                                dict(kind='tool-scanner', impl=impl, size=len(data))))
     return cases
 
 # ------------------------------------------------------------------ command-line tools
@@ -78,7 +104,8 @@ def tool_cases(tier, seed, work, tdir):
             if os.path.exists(f): os.unlink(f)
         r1 = subprocess.run([os.path.join(tdir, 'zck'), '-o', z] + zargs + [src], capture_output=True, timeout=120)
         if r1.returncode != 0:
-            return dict(op='%s zck %s' % (name, ' '.join(zargs)), ok=True, detail='zck exit %d' % r1.returncode, kind='tool-zck-refused')
+            return dict(op='%s zck %s' % (name, ' '.join(zargs)), ok=False, detail='zck exit %d on a regular input' % r1.returncode,
+                        kind='tool-zck-refused', data_hex=data.hex() if len(data) < 70000 else None)
         r2 = subprocess.run([os.path.join(tdir, 'unzck'), '-c', z], capture_output=True, timeout=120)
         ok = r2.returncode == 0 and r2.stdout == data
         return dict(op='%s zck %s' % (name, ' '.join(zargs)), ok=ok, kind='tool',
@@ -100,7 +127,7 @@ def tool_cases(tier, seed, work, tdir):
     # option combinations
     data = FG.text(rnd, 100000)
     for zargs in ([], ['-m'], ['--compression-format', 'none'], ['-u'], ['-u', '--chunk-hash-type', 'sha256'], ['-m', '-s', 'zchunk'],
-                  ['--chunk-hash-type', 'sha512'], ['--chunk-hash-type', 'sha1']):
+                  ['--chunk-hash-type', 'sha512'], ['--chunk-hash-type', 'sha512_128']):
         res.append(run_one('opts', data, zargs))
     for d in (b'', b'a'):
         res.append(run_one('tiny', d, []))
